@@ -159,8 +159,26 @@ class _Sandbox(object):
         shutil.rmtree(self.tmp, ignore_errors=True)
 
 
+_TERM = []
+
+
+def _tidy_on_terminate():
+    """Pool workers are stopped with SIGTERM when another worker reports a failure; turn that into
+    SystemExit once per worker process so that the `finally` of the running case removes its temp dir."""
+    if _TERM:
+        return
+    _TERM.append(1)
+    import multiprocessing
+    import signal
+    if multiprocessing.current_process().name != "MainProcess":
+        def _exit(signum, frame):
+            raise SystemExit(143)
+        signal.signal(signal.SIGTERM, _exit)
+
+
 def check(case):
     from insights.client import utilities as U
+    _tidy_on_terminate()
     from insights.client import cert_auth
     C = U.constants
     sb = None
